@@ -1,13 +1,79 @@
 /-
   C11 — Revocation is effective, permanent and issuer-only; status-list slots are unique.
-  Property theorems over NutsModel.C11 (model of vcr/revocation, vcr/verifier revocation handling).
+  Property theorems over NutsModel.C11 (model of vcr/revocation and of the revocation handling of vcr/verifier).
+  All statements quantify over every schedule / history / input; nothing here is a bounded enumeration.
 -/
 import NutsProofs.Lemmas.C11
 import NutsModel.Facts.C11
 namespace Nuts.C11.Props
 open Nuts Nuts.C11
 
-/-! ### bitstring: `bit (setBit b i v) j` -/
+/-! ### a small concrete environment for the non-vacuity examples -/
+
+def exEnv : Env :=
+  { lenBytes := 1, maxIndex := 7, validity := 100, minLeft := 25, maxAge := 15
+    keyOf := fun i => some (i ++ "#k"), sign := fun kid _ => kid
+    verify := fun vc => vc.proof == some (vc.body.issuer ++ "#k") }
+
+theorem exEnv_ok : EnvOK exEnv := by
+  refine ⟨by decide, by decide, ?_⟩
+  intro issuer kid body hk hb
+  simp only [exEnv, Option.some.injEq] at hk
+  simp [exEnv, ← hk, hb]
+
+def exNode (base : String) : Node := { base := base, dids := ["did:a", "did:b"] }
+def exWorld : World := { a := exNode "https://n0", b := exNode "https://n1" }
+
+theorem exWorld_inv : WInv exEnv exWorld := ⟨NInv.empty _ _ _, NInv.empty _ _ _, by decide⟩
+
+theorem exWorld_cache : CacheSound exWorld := by
+  intro i iss p rec h
+  cases i <;> simp [exWorld, exNode, World.get, Node.cred?] at h
+
+def exK : KeyEnv := ⟨fun _ _ => none, fun _ _ _ => false⟩
+def exList : Url := .sl "https://n0" "did:a" 1
+def exEntry : StatusEntry := { list := exList, idx := some 0 }
+def exCred : Cred := { id := some "did:a#1", issuer := "did:a", statuses := some [{ type := "Other", list := .raw "x", idx := none }, exEntry] }
+/-- node 0 issues an entry and revokes it; node 1 verifies a credential naming it (downloads the list) -/
+def exHistory : List Act := [.entryTx false "did:a" none, .revoke false "did:a#1" exEntry, .verify true exCred]
+
+/-! ### 1. status-list positions are never shared (all schedules, several issuers, retries, page roll-over) -/
+
+/-- a node without running `Entry` calls whose pages have distinct ids and indexes within the bitstring (e.g. a new node) -/
+theorem einv_fresh (E : Env) (base : String) (dids : List String) (now : Nat) :
+    EInv E { node := { base := base, dids := dids }, threads := [], now := now } := by
+  refine { fn := ?_, le := ?_, done := ?_, lock := ?_, uniq := ?_ }
+  · intro r1 r2 h; cases h
+  · intro r h; cases h
+  · intro t th l i h; simp at h
+  · intro t th r _ h; simp at h
+  · intro t1 t2 th1 th2 l i _ h; simp at h
+
+example : EInv exEnv { node := exNode "https://n0" } := einv_fresh exEnv _ _ 0
+
+/-- `entries_injective`: whatever the schedule of read steps (with any row the database may hand out, `none` included),
+    write steps, new `Entry` calls of any issuers, `Revoke`/`Credential` transactions and clock ticks — no two `Entry`
+    calls return the same (list, index), and every returned index fits the bitstring. Retries after a duplicate key and
+    page roll-over at `maxBitstringIndex` are steps of the same machine. -/
+theorem entries_injective (E : Env) (w0 : EWorld) (h0 : EInv E w0) (acts : List EAct) :
+    (∀ (t1 t2 : Nat) (th1 th2 : EThread) l i, t1 ≠ t2 → (eRun E w0 acts).threads[t1]? = some th1 →
+        (eRun E w0 acts).threads[t2]? = some th2 → th1.phase = .done l i → th2.phase ≠ .done l i) ∧
+    (∀ (t : Nat) (th : EThread) l i, (eRun E w0 acts).threads[t]? = some th → th.phase = .done l i → i ≤ E.maxIndex) := by
+  have h := eRun_inv (E := E) acts h0
+  refine ⟨h.uniq, ?_⟩
+  intro t th l i ht hd
+  obtain ⟨r, hr, _, hi⟩ := h.done t th l i ht hd
+  exact Nat.le_trans hi (h.le r hr)
+
+/-- non-vacuity: two calls of a first-time issuer race (both selects see no row); the loser gets a duplicate key, retries
+    on the pinned page, and both end with different positions -/
+example :
+    ((eRun exEnv { node := exNode "https://n0" }
+        [.spawn "did:a", .spawn "did:a", .read 0 none, .read 1 none, .write 0, .write 1,
+         .read 1 (some (.sl "https://n0" "did:a" 1)), .write 1]).threads.map (·.phase)) =
+      [.done (.sl "https://n0" "did:a" 1) 0, .done (.sl "https://n0" "did:a" 1) 1] := by decide
+
+/-! ### 2. bitstring -/
 
 /-- `bit_set_get`: for every bitstring, all in-range positions `i`, `j` and every value: after `setBit i v` succeeds,
     position `j` reads `v` if `j = i` and what it read before otherwise. -/
@@ -38,6 +104,317 @@ theorem bit_total (bs : Bits) (i : Int) :
 
 example : Bits.bit [0#8] (-1) = .err "index" ∧ Bits.bit [0#8] 8 = .err "index" ∧ Bits.bit [128#8] 0 = .ok true := by decide
 
+/-! ### 3. every served list is validly signed, not about to expire, and says exactly what was revoked -/
+
+/-- `served_list_signed_and_fresh`: after every history, whatever list a node serves (API call or another node's download)
+    verifies under `VerifySignature`, expires no earlier than `now + minTimeUntilExpired`, names the requested list and
+    its set bits are exactly the revoked positions of that list. -/
+theorem served_list_signed_and_fresh (E : Env) (K : KeyEnv) (hE : EnvOK E) (w0 : World) (h0 : WInv E w0) (acts : List Act)
+    (k : Bool) (issuer : String) (page : Nat) (vc : VC) (n' : Node)
+    (h : credential E (run E K w0 acts).now ((run E K w0 acts).get k) issuer page = .ok (vc, n')) :
+    E.verify vc = true ∧ (∃ e, vc.body.expires = some e ∧ (run E K w0 acts).now + E.minLeft ≤ e) ∧
+    Served n' (((run E K w0 acts).get k).url issuer page) vc := by
+  have hw := ((run_path (K := K) hE acts h0).nodes h0).1
+  obtain ⟨h1, h2, h3, _, _⟩ := credential_served hE (hw.node k) h
+  exact ⟨h1, h2, h3⟩
+
+/-- `list_signed_in_same_transaction`: in every reachable state the stored credential of every managed list is signed by
+    the list issuer's key and carries exactly the revocations: there is no committed state in which a revocation is
+    recorded but missing from the signed list. -/
+theorem list_signed_in_same_transaction (E : Env) (K : KeyEnv) (hE : EnvOK E) (w0 : World) (h0 : WInv E w0) (acts : List Act)
+    (k : Bool) (u : Url) (hu : ((run E K w0 acts).get k).isManaged u = true) :
+    ∃ rec, ((run E K w0 acts).get k).cred? u = some rec ∧ E.verify rec.raw = true ∧ Signed E rec ∧
+      ∀ j, getB rec.bits j = true ↔ j ∈ ((run E K w0 acts).get k).revsOf u := by
+  have hw := ((run_path (K := K) hE acts h0).nodes h0).1
+  obtain ⟨rec, hrec⟩ := (hw.node k).has u hu
+  obtain ⟨h1, _, _, _, h5⟩ := signed_served hE (hw.node k) hu hrec
+  exact ⟨rec, hrec, h1, ((hw.node k).crec u rec hu hrec).2, h5⟩
+
+example : (credential exEnv 0 (step exEnv ⟨fun _ _ => none, fun _ _ _ => false⟩ exWorld (.entryTx false "did:a" none)).a "did:a" 1).isOk = true := by
+  decide
+
+/-! ### 4. a set bit is never cleared; revocation is idempotent -/
+
+/-- `set_monotone`: along every history the revoked positions of every list only grow … -/
+theorem set_monotone (E : Env) (K : KeyEnv) (hE : EnvOK E) (w0 : World) (h0 : WInv E w0) (acts : List Act) (k : Bool) (u : Url) (j : Nat)
+    (h : j ∈ (w0.get k).revsOf u) : j ∈ ((run E K w0 acts).get k).revsOf u :=
+  (((run_path (K := K) hE acts h0).nodes h0).2 k).revs u j h
+
+/-- … so a bit that was set in a served list is set in every list served later, whatever happened in between. -/
+theorem served_bit_never_cleared (E : Env) (K : KeyEnv) (hE : EnvOK E) (w0 : World) (h0 : WInv E w0)
+    (k : Bool) (issuer : String) (page : Nat) (vc1 : VC) (n1 : Node) (bits1 : Bits) (j : Nat)
+    (h1 : credential E w0.now (w0.get k) issuer page = .ok (vc1, n1))
+    (hb1 : vc1.body.subjects = [{ id := (w0.get k).url issuer page, purpose := "revocation", enc := .ok bits1 }]) (hj : getB bits1 j = true)
+    (acts : List Act) (vc2 : VC) (n2 : Node) (bits2 : Bits)
+    (h2 : credential E (run E K (w0.set k n1) acts).now ((run E K (w0.set k n1) acts).get k) issuer page = .ok (vc2, n2))
+    (hb2 : vc2.body.subjects = [{ id := (w0.get k).url issuer page, purpose := "revocation", enc := .ok bits2 }]) :
+    getB bits2 j = true := by
+  obtain ⟨_, _, ⟨b1, hs1, hiff1⟩, _, _⟩ := credential_served hE (h0.node k) h1
+  rw [hb1] at hs1
+  simp only [List.cons.injEq, Subject.mk.injEq, Enc.ok.injEq, and_true, true_and] at hs1
+  subst hs1
+  have hp1 : WPrim E K w0 (w0.set k n1) := WPrim.cred w0 k issuer page vc1 n1 h1
+  have hw1 := (hp1.nodes h0).1
+  have hpath := run_path (K := K) hE acts hw1
+  have hw2 := (hpath.nodes hw1).1
+  have hm := (hpath.nodes hw1).2 k
+  obtain ⟨_, _, ⟨b2, hs2, hiff2⟩, _, hrevs⟩ := credential_served hE (hw2.node k) h2
+  have hbase : ((run E K (w0.set k n1) acts).get k).url issuer page = (w0.get k).url issuer page := by
+    simp only [Node.url]
+    rw [hm.base, get_set_same, (NMono.of_credential h1).base]
+  rw [hbase, hb2] at hs2
+  simp only [List.cons.injEq, Subject.mk.injEq, Enc.ok.injEq, and_true, true_and] at hs2
+  subst hs2
+  rw [hbase] at hiff2
+  rw [hiff2]
+  have : j ∈ n2.revsOf ((w0.get k).url issuer page) ↔ j ∈ ((run E K (w0.set k n1) acts).get k).revsOf ((w0.get k).url issuer page) := by
+    unfold Node.revsOf; rw [hrevs]
+  rw [this]
+  apply hm.revs
+  rw [get_set_same]
+  exact (hiff1 j).mp hj
+
+/-- `revoke_idempotent`: once `Revoke` of an entry succeeded, every later `Revoke` of the same list position — after any
+    history, with any credential id — answers errRevoked and (being an error) changes nothing. -/
+theorem revoke_idempotent (E : Env) (K : KeyEnv) (hE : EnvOK E) (w0 : World) (h0 : WInv E w0) (k : Bool) (credId : String)
+    (e : StatusEntry) (n1 : Node) (h1 : revoke E w0.now (w0.get k) credId e = .ok n1) (acts : List Act) (credId' : String) :
+    revoke E (run E K (w0.set k n1) acts).now ((run E K (w0.set k n1) acts).get k) credId' e = .err "revoked" := by
+  obtain ⟨i, row, kid, vc, rec, hi, hp, hrow, hkid, _, _, _, hn1⟩ := revoke_ok h1
+  have hp1 : WPrim E K w0 (w0.set k n1) := WPrim.revoke w0 k credId e n1 h1
+  have hw1 := (hp1.nodes h0).1
+  have hpath := run_path (K := K) hE acts hw1
+  have hw2 := (hpath.nodes hw1).1
+  have hm := (hpath.nodes hw1).2 k
+  have hmem1 : i ∈ n1.revsOf e.list := by
+    rw [hn1]
+    have : (Node.putCred { (w0.get k) with revs := (w0.get k).revs ++ [{ list := e.list, idx := i, credId := credId }] } rec).revsOf e.list =
+        ({ (w0.get k) with revs := (w0.get k).revs ++ [{ list := e.list, idx := i, credId := credId }] } : Node).revsOf e.list := rfl
+    rw [this, revsOf_append]
+    simp
+  refine revoke_again (hw2.node k) hi hp (hm.revs _ _ (by rw [get_set_same]; exact hmem1)) ?_ _ _
+  intro row' hrow'
+  have : row'.issuer = row.issuer :=
+    page_issuer (h0.node k) (hw2.node k) (by rw [hm.base, get_set_same, (NMono.of_revoke h1).base]) hrow hrow'
+  exact ⟨kid, by rw [this]; exact hkid⟩
+
+example : 0 ∈ ((run exEnv exK exWorld exHistory).get false).revsOf exList := by decide
+example : (revoke exEnv 0 (run exEnv exK exWorld [.entryTx false "did:a" none]).a "did:a#1" exEntry).isOk = true := by decide
+
+/-! ### 5. network revocations: permanent, also when they arrive before the credential; issuer-only -/
+
+/-- `revoked_forever` (network): once a node holds a revocation whose subject is the credential's id, every later
+    verification of that credential on that node — after any history of credentials, revocations, lists, ticks — answers
+    revoked. -/
+theorem revoked_forever_network (E : Env) (K : KeyEnv) (hE : EnvOK E) (w0 : World) (h0 : WInv E w0) (i : Bool) (r : Revocation) (c : Cred)
+    (hr : r ∈ (w0.get i).netRevs) (hc : c.id = some r.subject) (acts : List Act) :
+    (verify E i (run E K w0 acts) c).1 = .revoked := by
+  have := (((run_path (K := K) hE acts h0).nodes h0).2 i).net r hr
+  have hrev : ((run E K w0 acts).get i).credRevoked c = true := by
+    simp only [Node.credRevoked, hc, Node.isRevoked, List.any_eq_true]
+    exact ⟨r, this, by simp⟩
+  simp [verify, hrev]
+
+/-- `revocation_before_credential`: the revocation is accepted at some point of a history; wherever the credential itself
+    is received or verified (`Act.verify`, before or after, or never), every verification after the revocation answers
+    revoked. -/
+theorem revocation_before_credential (E : Env) (K : KeyEnv) (hE : EnvOK E) (w0 : World) (h0 : WInv E w0) (i : Bool) (r : Revocation) (c : Cred)
+    (before after : List Act) (n' : Node)
+    (hacc : registerRevocation K ((run E K w0 before).get i) r = .ok n') (hc : c.id = some r.subject) :
+    (verify E i (run E K w0 (before ++ [.register i r] ++ after)) c).1 = .revoked := by
+  have hw1 := ((run_path (K := K) hE before h0).nodes h0).1
+  have hrun : run E K w0 (before ++ [.register i r] ++ after) = run E K ((run E K w0 before).set i n') after := by
+    simp only [run, List.foldl_append, List.foldl_cons, List.foldl_nil, step]
+    rw [show registerRevocation K ((List.foldl (step E K) w0 before).get i) r = .ok n' from hacc]
+  rw [hrun]
+  have hp : WPrim E K (run E K w0 before) ((run E K w0 before).set i n') := WPrim.register _ i r n' hacc
+  refine revoked_forever_network E K hE _ (hp.nodes hw1).1 i r c ?_ hc after
+  rw [get_set_same]
+  obtain ⟨rfl, _⟩ := registerRevocation_ok hacc
+  simp
+
+/-- `issuer_only`: `RegisterRevocation` stores a revocation only if its issuer is the DID prefix of the revoked credential's
+    id, the proof's key id is prefixed by the same issuer, that key resolves and the signature verifies under it; in every
+    other case nothing is stored. Consequently every revocation a node ever holds satisfies this. -/
+theorem issuer_only (K : KeyEnv) (n n' : Node) (r : Revocation) (h : registerRevocation K n r = .ok n') :
+    Accepted K r ∧ n'.netRevs = n.netRevs ++ [r] := by
+  obtain ⟨rfl, hacc⟩ := registerRevocation_ok h
+  exact ⟨hacc, rfl⟩
+
+theorem stored_revocations_accepted (E : Env) (K : KeyEnv) (hE : EnvOK E) (w0 : World) (h0 : WInv E w0) (hn : NetOK K w0) (acts : List Act) :
+    NetOK K (run E K w0 acts) :=
+  netok_path (run_path hE acts h0) hn
+
+/-- for a credential whose id is prefixed by its issuer (what the node's issuer produces and the Nuts validators demand), a
+    revoked verdict caused by a network revocation is caused by a revocation naming that issuer, signed with a key of that
+    issuer -/
+theorem network_revocation_is_by_issuer (E : Env) (K : KeyEnv) (hE : EnvOK E) (w0 : World) (h0 : WInv E w0) (hn : NetOK K w0)
+    (acts : List Act) (i : Bool) (c : Cred) (id : String) (hid : c.id = some id) (hpre : prefixOf id = c.issuer)
+    (h : ((run E K w0 acts).get i).credRevoked c = true) :
+    ∃ r p pk, r ∈ ((run E K w0 acts).get i).netRevs ∧ r.subject = id ∧ r.issuer = c.issuer ∧ r.proof = some p ∧
+      prefixOf p.vm = c.issuer ∧ K.resolveKey p.vm r.date = some pk ∧ K.sigOK pk r p.sig = true := by
+  simp only [Node.credRevoked, hid, Node.isRevoked, List.any_eq_true, beq_iff_eq] at h
+  obtain ⟨r, hr, hs⟩ := h
+  obtain ⟨p, pk, h1, h2, h3, h4, h5⟩ := stored_revocations_accepted E K hE w0 h0 hn acts i r hr
+  refine ⟨r, p, pk, hr, hs, ?_, h1, ?_, h4, h5⟩
+  · rw [← h2, hs, hpre]
+  · rw [h3, ← h2, hs, hpre]
+
+/-- the forged documents of the property text are rejected: another issuer than the id prefix, a key of another party, an
+    unresolvable key, a bad signature -/
+theorem forged_revocations_rejected (K : KeyEnv) (n : Node) (r : Revocation) (p : RevProof) (hp : r.proof = some p) :
+    (prefixOf r.subject ≠ r.issuer → ∃ e, registerRevocation K n r = .err e) ∧
+    (prefixOf p.vm ≠ r.issuer → ∃ e, registerRevocation K n r = .err e) ∧
+    (K.resolveKey p.vm r.date = none → ∃ e, registerRevocation K n r = .err e) ∧
+    (∀ pk, K.resolveKey p.vm r.date = some pk → K.sigOK pk r p.sig = false → ∃ e, registerRevocation K n r = .err e) := by
+  have key : ∀ n', registerRevocation K n r = .ok n' → Accepted K r := fun n' h => (issuer_only K n n' r h).1
+  have nopanic : ∀ s, registerRevocation K n r ≠ .panic s := by
+    intro s h
+    unfold registerRevocation at h
+    split at h
+    · repeat (first | cases h | split at h)
+    · cases h
+    · rename_i s' hv
+      unfold validateRevocation at hv
+      repeat (first | cases hv | split at hv)
+  have rej : ¬ Accepted K r → ∃ e, registerRevocation K n r = .err e := by
+    intro hna
+    cases hreg : registerRevocation K n r with
+    | ok n' => exact absurd (key n' hreg) hna
+    | err e => exact ⟨e, rfl⟩
+    | panic s => exact absurd hreg (nopanic s)
+  refine ⟨fun h => rej ?_, fun h => rej ?_, fun h => rej ?_, fun pk h1 h2 => rej ?_⟩
+  · rintro ⟨_, _, _, h2, _⟩; exact h h2
+  · rintro ⟨p', _, h1, _, h3, _⟩; rw [hp] at h1; cases h1; exact h h3
+  · rintro ⟨p', pk, h1, _, _, h4, _⟩; rw [hp] at h1; cases h1; rw [h] at h4; cases h4
+  · rintro ⟨p', pk', h1, _, _, h4, h5⟩; rw [hp] at h1; cases h1; rw [h1] at h4; cases h4; rw [h2] at h5; cases h5
+
+def exKeys : KeyEnv :=
+  { resolveKey := fun vm _ => if vm == "did:nuts:B#k" then some "pkB" else if vm == "did:nuts:A#k" then some "pkA" else none
+    sigOK := fun pk r sig => sig == pk ++ "|" ++ r.subject }
+
+def exRevByB : Revocation :=
+  { subject := "did:nuts:B#1", issuer := "did:nuts:B", date := some 5, proof := some { vm := "did:nuts:B#k", sig := "pkB|did:nuts:B#1" } }
+
+example : Accepted exKeys exRevByB := by
+  refine ⟨_, "pkB", rfl, by decide, by decide, by decide, by decide⟩
+
+/-- `foreign_prefix_witness` (candidate defect 16): the check keys on the DID prefix of the credential *id*. For a credential
+    of issuer A whose id is not prefixed by A but by B (the default validator does not forbid it), B's revocation is stored
+    and the credential is then answered revoked, while A's own revocation of it is refused. For such credentials "only the
+    credential's issuer" does not hold; it holds for id-prefixed credentials (`network_revocation_is_by_issuer`). -/
+theorem foreign_prefix_witness :
+    let c : Cred := { id := some "did:nuts:B#1", issuer := "did:nuts:A", statuses := none }
+    let byA : Revocation := { subject := "did:nuts:B#1", issuer := "did:nuts:A", date := some 5,
+                              proof := some { vm := "did:nuts:A#k", sig := "pkA|did:nuts:B#1" } }
+    (match registerRevocation exKeys (exNode "https://n0") exRevByB with
+      | .ok n' => n'.credRevoked c
+      | _ => false) = true ∧
+    (match registerRevocation exKeys (exNode "https://n0") byA with
+      | .err e => e == "issuer-mismatch"
+      | _ => false) = true := by
+  decide
+
+/-! ### 6. status list revocation: effective at once on the issuing node, permanent on every node that refreshed -/
+
+/-- `revoked_forever` (status list, issuing node): from the moment a position is revoked, the node that manages the list
+    answers revoked for every credential whose first relevant status entry names that list and position, after any history.
+    (Entries before it may be of another type or purpose; those are skipped.) -/
+theorem revoked_forever_local (E : Env) (K : KeyEnv) (hE : EnvOK E) (w0 : World) (h0 : WInv E w0) (i : Bool) (u : Url) (j : Nat)
+    (hj : j ∈ (w0.get i).revsOf u) (acts : List Act) (c : Cred) (pre post : List StatusEntry) (st : StatusEntry)
+    (hc : c.statuses = some (pre ++ st :: post)) (hpre : ∀ s, s ∈ pre → s.relevant = false)
+    (hst : st.list = u) (hty : st.type = "StatusList2021Entry") (hpu : st.purpose = "revocation") (hidx : st.idx = some (j : Int)) :
+    (verify E i (run E K w0 acts) c).1 = .revoked := by
+  have hpath := run_path (K := K) hE acts h0
+  have hw := (hpath.nodes h0).1
+  have hj' := ((hpath.nodes h0).2 i).revs u j hj
+  apply verify_of_status_revoked
+  simp only [statusVerify, hc]
+  exact verifyStatuses_local hE st hst hty hpu hidx post pre hpre hw hj'
+
+example : (verify exEnv false (run exEnv exK exWorld exHistory) exCred).1 = .revoked := by decide
+
+/-- a successful `Revoke` makes the position revoked on the issuing node -/
+theorem revoke_effective (E : Env) (now : Nat) (n n' : Node) (credId : String) (e : StatusEntry)
+    (h : revoke E now n credId e = .ok n') : ∃ j : Nat, e.idx = some (j : Int) ∧ j ∈ n'.revsOf e.list := by
+  obtain ⟨i, row, kid, vc, rec, hi, _, _, _, _, _, _, rfl⟩ := revoke_ok h
+  refine ⟨i, hi, ?_⟩
+  have : (Node.putCred { n with revs := n.revs ++ [{ list := e.list, idx := i, credId := credId }] } rec).revsOf e.list =
+      ({ n with revs := n.revs ++ [{ list := e.list, idx := i, credId := credId }] } : Node).revsOf e.list := rfl
+  rw [this, revsOf_append]
+  simp
+
+/-- `revoked_forever` (status list, other node): once node `i` holds a record of the other node's list with the bit set
+    (it refreshed the list after the revocation, see `refresh_after_revocation_pins`), it answers revoked for that position
+    after any further history: refreshes only bring supersets, failed refreshes keep the old record. -/
+theorem revoked_forever_remote (E : Env) (K : KeyEnv) (hE : EnvOK E) (w0 : World) (h0 : WInv E w0) (hc0 : CacheSound w0)
+    (i : Bool) (ob iss : String) (p j : Nat) (hpin : Pin w0 i ob iss p j) (acts : List Act)
+    (c : Cred) (pre post : List StatusEntry) (st : StatusEntry)
+    (hc : c.statuses = some (pre ++ st :: post)) (hpre : ∀ s, s ∈ pre → s.relevant = false)
+    (hst : st.list = .sl ob iss p) (hty : st.type = "StatusList2021Entry") (hpu : st.purpose = "revocation") (hidx : st.idx = some (j : Int)) :
+    (verify E i (run E K w0 acts) c).1 = .revoked := by
+  have hpath := run_path (K := K) hE acts h0
+  have hw := (hpath.nodes h0).1
+  apply verify_of_status_revoked
+  simp only [statusVerify, hc]
+  exact verifyStatuses_pinned (K := K) hE st hst hty hpu hidx post pre hpre hw (cache_path hpath h0 hc0) (pin_path hpath h0 hc0 hpin)
+
+/-- non-vacuity: after `exHistory` node 1 holds node 0's list with bit 0 set (it downloaded it while verifying) -/
+example : Pin (run exEnv exK exWorld exHistory) true "https://n0" "did:a" 1 0 := by
+  have h : (match ((run exEnv exK exWorld exHistory).get true).cred? exList with
+      | some rec => rec.purpose == "revocation" && getB rec.bits 0
+      | none => false) = true := by decide
+  refine ⟨by decide, ?_⟩
+  split at h
+  · rename_i rec hrec
+    simp only [Bool.and_eq_true, beq_iff_eq] at h
+    exact ⟨rec, hrec, h.1, h.2⟩
+  · cases h
+
+example : (verify exEnv true (run exEnv exK exWorld (exHistory ++ [.tick 1000, .verify true exCred])) exCred).1 = .revoked := by decide
+
+/-- "refreshed the list": a successful `update` of node `i`'s record of the other node's list, made from that node's
+    `Credential` answer while position `j` is revoked there, pins bit `j` -/
+theorem refresh_after_revocation_pins (E : Env) (w : World) (i : Bool) (iss : String) (p j : Nat) (f : Fetch) (rec : CredRec) (n' : Node)
+    (hj : j ∈ (w.get (!i)).revsOf (.sl (w.get (!i)).base iss p)) (hf : FetchOK w (.sl (w.get (!i)).base iss p) f)
+    (hup : update E w.now (w.get i) (.sl (w.get (!i)).base iss p) f = .ok (rec, n')) :
+    Pin (w.set i n') i (w.get (!i)).base iss p j :=
+  refresh_pins hj hf hup
+
+/-- no false revocations through the cache either: in every reachable state what a node holds about the other node's lists
+    is a subset of what that node revoked -/
+theorem cache_sound (E : Env) (K : KeyEnv) (hE : EnvOK E) (w0 : World) (h0 : WInv E w0) (hc0 : CacheSound w0) (acts : List Act) :
+    CacheSound (run E K w0 acts) :=
+  cache_path (run_path hE acts h0) h0 hc0
+
+/-! ### 7. a status entry is honoured only from the list the credential names -/
+
+/-- `status_only_from_named_list`: if the status check answers revoked, the credential carries a status entry of type
+    StatusList2021Entry and purpose revocation, and the bit consulted is bit `statusListIndex` of a record whose id is that
+    entry's `statusListCredential`, whose stored credential has exactly one subject with that same id and that bitstring,
+    and whose purpose equals the entry's. Lists stored under other URLs, or downloaded credentials naming another list
+    (`update` refuses them), cannot revoke it. -/
+theorem status_only_from_named_list (E : Env) (K : KeyEnv) (hE : EnvOK E) (w : World) (hw : WInv E w) (i : Bool) (c : Cred)
+    (h : (statusVerify E i w c).1 = .revoked) :
+    ∃ sts st, c.statuses = some sts ∧ st ∈ sts ∧ st.type = "StatusList2021Entry" ∧ st.purpose = "revocation" ∧
+      ∃ (j : Int) (rec : CredRec), st.idx = some j ∧ rec.bits.bit j = .ok true ∧ rec.id = st.list ∧
+        (∃ s, rec.raw.body.subjects = [s] ∧ s.id = st.list ∧ s.enc = .ok rec.bits) ∧ rec.purpose = st.purpose := by
+  unfold statusVerify at h
+  split at h
+  · cases h
+  · rename_i sts hs
+    obtain ⟨st, hm, hrel, j, rec, h1, h2, h3, ⟨s, h4, h5, h6⟩, h7⟩ := verifyStatuses_revoked (K := K) hE i sts hw h
+    simp only [StatusEntry.relevant, Bool.and_eq_true, beq_iff_eq] at hrel
+    exact ⟨sts, st, hs, hm, hrel.1, hrel.2, j, rec, h1, h2, h3, ⟨s, h4, by rw [h5, h3], h6⟩, h7⟩
+
+example : (statusVerify exEnv true (run exEnv exK exWorld exHistory) exCred).1 = .revoked := by decide
+
+/-- a downloaded credential whose subject names another list is refused, whoever signed it -/
+theorem update_refuses_other_list (E : Env) (now : Nat) (n : Node) (u : Url) (v : VC) (rec : CredRec) (n' : Node)
+    (h : update E now n u (.vc v) = .ok (rec, n')) : ∃ s, v.body.subjects = [s] ∧ s.id = u ∧ E.verify v = true := by
+  obtain ⟨v', s, hv, h1, h2, _, h3, _⟩ := update_ok h
+  cases hv
+  exact ⟨s, h1, h2, h3⟩
+
 /-! ### regenerated facts the model relies on -/
 
 theorem fact_bitstring_arithmetic :
@@ -45,10 +422,71 @@ theorem fact_bitstring_arithmetic :
       "return false,ErrIndexNotInBitstring", "return isSet((*bs)[q],r),nil"] ∧
     Facts.C11.bitstring_setBit = ["q,r := statusListIndex / 8,byte(statusListIndex % 8)", "if statusListIndex < 0 || q >= len(*bs)",
       "return ErrIndexNotInBitstring", "if isSet((*bs)[q],r) != value", "(*bs)[q] ^= 1 << (7 - r)", "return nil"] ∧
-    Facts.C11.bitstring_isSet = ["return b >> (7 - r) & 1 == 1"] := by decide
+    Facts.C11.bitstring_isSet = ["return b >> (7 - r) & 1 == 1"] ∧
+    Facts.C11.bitstring_new = ["bs := bitstring(make(<*ast.ArrayType>,defaultBitstringLengthInBytes))", "return &bs"] := by decide
 
-theorem fact_max_index : Facts.C11.maxBitstringIndex + 1 = 8 * Facts.C11.defaultBitstringLengthInBytes := by decide
+/-- `EnvOK` for the regenerated constants: the last index is the last bit of the bitstring, and a list is re-issued for
+    longer than the minimum remaining validity -/
+theorem fact_constants :
+    Facts.C11.maxBitstringIndex + 1 = 8 * Facts.C11.defaultBitstringLengthInBytes ∧
+    Facts.C11.minTimeUntilExpired ≤ Facts.C11.statusListValidity ∧ 0 < Facts.C11.minTimeUntilExpired ∧
+    0 < Facts.C11.maxAgeExternal := by decide
 
-theorem fact_min_left_le_validity : Facts.C11.minTimeUntilExpired ≤ Facts.C11.statusListValidity ∧ 0 < Facts.C11.minTimeUntilExpired := by decide
+theorem fact_env_ok (keyOf : String → Option String) (sign : String → VCBody → String) (verify : VC → Bool)
+    (hs : ∀ issuer kid body, keyOf issuer = some kid → body.issuer = issuer → verify { body := body, proof := some (sign kid body) } = true) :
+    EnvOK { lenBytes := Facts.C11.defaultBitstringLengthInBytes, maxIndex := Facts.C11.maxBitstringIndex,
+            validity := Facts.C11.statusListValidity, minLeft := Facts.C11.minTimeUntilExpired, maxAge := Facts.C11.maxAgeExternal,
+            keyOf := keyOf, sign := sign, verify := verify } :=
+  ⟨fact_constants.1, fact_constants.2.1, hs⟩
+
+theorem fact_entry_structure :
+    Facts.C11.entryConds = ["purpose != StatusPurposeRevocation", "!errors.Is(err,gorm.ErrRecordNotFound)",
+      "credentialIssuer.LastIssuedIndex > maxBitstringIndex", "errors.Is(err,gorm.ErrDuplicatedKey)"] ∧
+    Facts.C11.entryFirstTimeLiteral = ["LastIssuedIndex:maxBitstringIndex", "Page:0"] ∧
+    Facts.C11.entryAssignments = ["credentialIssuer.LastIssuedIndex++", "credentialIssuer.LastIssuedIndex = 0", "credentialIssuer.Page++",
+      "credentialIssuer.SubjectID = cs.statusListURL(issuer,credentialIssuer.Page)"] ∧
+    Facts.C11.entrySelectsForUpdate = true ∧ Facts.C11.entryRetriesInLoop = true ∧
+    Facts.C11.entryCalls = ["cs.ResolveKey", "cs.db.Transaction", "tx.Create", "cs.updateCredential", "tx.Create",
+      "tx.Model().Where().UpdateColumn"] ∧
+    Facts.C11.primaryKeys = ["credentialIssuerRecord.SubjectID", "credentialRecord.SubjectID",
+      "revocationRecord.StatusListCredential", "revocationRecord.StatusListIndex"] := by decide
+
+theorem fact_revoke_and_credential_structure :
+    Facts.C11.revokeConds = ["entry.StatusPurpose != StatusPurposeRevocation", "!cs.isManaged(entry.StatusListCredential)",
+      "errors.Is(err,gorm.ErrDuplicatedKey)", "statusListIndex < 0 || statusListIndex > issuerRecord.LastIssuedIndex"] ∧
+    Facts.C11.revokeCalls = ["cs.db.Transaction", "lockCredentialRecord", "tx.Create", "cs.updateCredential", "tx.Clauses().Create"] ∧
+    Facts.C11.credentialConds = ["!cs.isManaged(statusListCredentialURL)",
+      "err == nil && time.Now().Add(minTimeUntilExpired).Before(time.Unix(*credRecord.Expires,0))"] ∧
+    Facts.C11.credentialCalls = ["cs.loadCredential", "cs.db.Transaction", "lockCredentialRecord", "cs.updateCredential", "tx.Clauses().Create"] ∧
+    Facts.C11.signValidity = ["iss := time.Now()", "exp := iss.Add(statusListValidity)"] := by decide
+
+set_option maxRecDepth 100000 in
+theorem fact_status_verifier_structure :
+    Facts.C11.statusVerifyConds = ["credentialToVerify.CredentialStatus == nil", "status.Type != StatusList2021EntryType",
+      "slEntry.StatusPurpose != \"revocation\"", "sList.StatusPurpose != slEntry.StatusPurpose", "revoked"] ∧
+    Facts.C11.statusListConds = ["err != nil", "cs.isManaged(statusListCredential)",
+      "(cr.Expires != nil && time.Unix(*cr.Expires,0).Before(time.Now())) || time.Unix(cr.CreatedAt,0).Add(maxAgeExternal).Before(time.Now())",
+      "err == nil", "cr.Expires != nil && time.Unix(*cr.Expires,0).Before(time.Now())"] ∧
+    Facts.C11.updateConds = ["statusListCredential != credSubject.ID"] ∧
+    Facts.C11.updateCalls = ["cs.download", "cs.verify", "cs.db.Clauses().Create"] ∧
+    Facts.C11.verifyListCalls = ["cs.validate", "expand", "cs.VerifySignature"] ∧
+    Facts.C11.validateConds = ["!cred.ContainsContext(vc.VCContextV1URI())", "!cred.ContainsContext(StatusList2021ContextURI)",
+      "!cred.IsType(vc.VerifiableCredentialTypeV1URI())", "!cred.IsType(statusList2021CredentialTypeURI)", "len(cred.Type) > 2",
+      "cred.ID == nil", "cred.IssuanceDate.IsZero()", "cred.Format() == vc.JSONLDCredentialProofFormat && cred.Proof == nil",
+      "cred.CredentialStatus != nil", "err != nil", "len(target) != 1", "credentialSubject.Type != StatusList2021CredentialSubjectType",
+      "credentialSubject.StatusPurpose == \"\"", "credentialSubject.EncodedList == \"\""] := by decide
+
+set_option maxRecDepth 100000 in
+theorem fact_register_and_verify_order :
+    Facts.C11.registerConds = ["subjectIssuer != revocation.Issuer.String()", "vmIssuer != revocation.Issuer.String()"] ∧
+    Facts.C11.registerCalls = ["credential.ValidateRevocation", "strings.Split", "strings.Split", "v.keyResolver.ResolveKeyByID",
+      "ldProof.Verify", "v.store.StoreRevocation"] ∧
+    Facts.C11.verifyConds = ["credentialToVerify.ID != nil", "revoked", "errors.Is(err,types.ErrRevoked)"] ∧
+    Facts.C11.verifyCalls = ["v.IsRevoked", "v.credentialStatus.Verify", "v.trustConfig.IsTrusted", "v.VerifySignature"] ∧
+    Facts.C11.isRevokedConds = ["err != nil", "errors.Is(err,ErrNotFound)"] ∧
+    Facts.C11.isRevokedCalls = ["v.store.GetRevocations"] ∧
+    Facts.C11.validateRevocationConds = ["r.Subject.String() == \"\" || r.Subject.Fragment == \"\"", "len(r.Context) != 0",
+      "val == RevocationType", "!foundType", "r.Issuer.String() == \"\"", "r.Date.IsZero()", "r.Proof == nil"] ∧
+    Facts.C11.ambassadorRevocationCalls = ["n.verifier.RegisterRevocation"] := by decide
 
 end Nuts.C11.Props
